@@ -238,6 +238,9 @@ def decl(mode: str, text: str, rng) -> tuple:
         # inputs auto-detected, every predicate of the program declared as output: nothing may be thrown away,
         # so every pass has to work on every rule (with auto-detection and no #show most rules simply vanish)
         return "auto", [list(p) for p in preds]
+    if mode == "inall":
+        # every predicate declared as given from outside (also those the program derives itself), outputs auto
+        return [list(p) for p in preds], "auto"
     if mode == "outsinks":
         # the natural outputs of a program without #show: predicates derived by some head and used in no body;
         # intermediate predicates stay free to be removed, inlined or projected (falls back to outall)
